@@ -99,9 +99,9 @@ Proof.
          rewrite H0. destruct (commit_cases _ _ _ _ _ C) as [[-> _]|[-> _]]; [exact H|]. apply in_apply_batch. right. exact H. }
     all: rewrite (thread_step_store _ _ _ _ _ _ _ TS); [exact H|intros; discriminate].
   - unfold seq_step. destruct (s_seq s); [destruct (s_slots s (s_committed s + 1)) as [ev|]; [destruct (e_valid ev); [|destruct (e_unc ev)]|]|..]; exact H.
-  - unfold retry_step. destruct (s_retry s) as [|node|node val|node val rev|node rev eo|node st]; try exact H.
+  - unfold retry_step. destruct (s_retry s) as [|node|node val|node val rev|node rev [er|]|node st]; try exact H; try (destruct (is_cas er); exact H).
     + destruct (s_queue s) as [|[node t] rest]; [exact H|]. destruct (s_now s - t <? retry_interval); exact H.
-    + destruct e; try exact H. destruct (latest _) as [[modrev val]|]; [destruct (is_empty val || negb (modrev =? e_rev node))|]; exact H.
+    + destruct e; try exact H. destruct (latest _) as [[modrev val]|]; [destruct (negb (modrev =? e_rev node))|]; exact H.
     + destruct (commit (s_store s) _ e) as [sto eo] eqn:C. cbn [s_store set_retry set_store].
       destruct (commit_cases _ _ _ _ _ C) as [[-> _]|[-> _]]; [exact H|]. apply in_apply_batch. right. exact H.
   - exact H.
@@ -231,11 +231,11 @@ Proof.
   - unfold retry_step. destruct (s_retry s) as [|node|node val|node val rev|node rev eo|node st] eqn:R.
     + destruct (s_queue s) as [|[node t] rest]; [|destruct (s_now s - t <? retry_interval)]; intros ? ? ? H; cbn in H; try rewrite R in H; discriminate.
     + destruct e; try (intros ? ? ? H; discriminate).
-      destruct (latest _) as [[modrev val]|]; [destruct (is_empty val || negb (modrev =? e_rev node))|]; intros ? ? ? H; discriminate.
+      destruct (latest _) as [[modrev val]|]; [destruct (negb (modrev =? e_rev node))|]; intros ? ? ? H; discriminate.
     + intros n v r H k v0 Hin. cbn [s_retry set_retry] in H. injection H as <- <- <-. unfold vers in Hin. cbn [s_store set_retry set_dealt] in Hin.
       apply (v_le _ I2) in Hin. lia.
     + destruct (commit (s_store s) _ e). intros ? ? ? H; discriminate.
-    + intros ? ? ? H; discriminate.
+    + destruct eo as [er|]; [destruct (is_cas er)|]; intros ? ? ? H; discriminate.
     + intros ? ? ? H; discriminate.
   - exact RP.
 Qed.
@@ -348,7 +348,7 @@ Proof.
       - apply (al_q s ev t0). rewrite <- H5. exact H.
       - rewrite H6 in H. discriminate. }
     destruct e; try (constructor; unfold vers in *; eauto; fail).
-    + destruct (latest _) as [[modrev val]|]; [destruct (is_empty val || negb (modrev =? e_rev node))|];
+    + destruct (latest _) as [[modrev val]|]; [destruct (negb (modrev =? e_rev node))|];
         constructor; unfold vers in *; cbn [s_store s_events s_committed set_retry]; eauto;
         try (intros ev H; apply (A ev); eapply Al; [..|exact H]; reflexivity);
         try (intros ev H; apply (B ev); eapply Al; [..|exact H]; reflexivity).
@@ -395,13 +395,21 @@ Proof.
         -- exists val. exact Hin_new.
   - (* dispatch *)
     intros _.
-    assert (Al : forall ev, alive (set_retry (set_slots s (slot_set (s_slots s) rev (Some (mk_ev rev (e_prev node) (e_verb node) (e_key node) (e_val node) eo))))
-                                  (RPop node match eo with None => RSSuccess | Some er => if is_unc er then RSUnknownPut else RSFailedPut end)) ev -> alive s ev).
-    { intros ev H. al_split H; [apply al_ev|..|apply (al_thr s ev t0 th0 G0)|apply al_seq|apply (al_q s ev t0)|]; try exact H; [|discriminate].
-      cbn in H. destruct (N.eq_dec (e_rev ev) rev) as [E|E].
-      - rewrite E, slot_set_same in H. injection H as <-. apply al_retry. rewrite R. reflexivity.
-      - rewrite slot_set_other in H by exact E. apply al_slot. exact H. }
-    constructor; unfold vers in *; cbn [s_store s_events s_committed set_retry set_slots]; eauto.
+    set (s1 := set_slots s (slot_set (s_slots s) rev (Some (mk_ev rev (e_prev node) (e_verb node) (e_key node) (e_val node) eo)))).
+    assert (Al : forall S0, s_events S0 = s_events s1 -> s_slots S0 = s_slots s1 -> s_threads S0 = s_threads s1 -> s_seq S0 = s_seq s1 ->
+                 s_queue S0 = s_queue s1 -> retry_ev (s_retry S0) = None -> forall ev, alive S0 ev -> alive s ev).
+    { intros S0 H1 H2 H3 H4 H5 H6 ev H. al_split H.
+      - apply al_ev. rewrite H1 in H. exact H.
+      - rewrite H2 in H. cbn in H. destruct (N.eq_dec (e_rev ev) rev) as [E|E].
+        + rewrite E, slot_set_same in H. injection H as <-. apply al_retry. rewrite R. reflexivity.
+        + rewrite slot_set_other in H by exact E. apply al_slot. exact H.
+      - rewrite H3 in G0. apply (al_thr s ev t0 th0 G0 H).
+      - apply al_seq. rewrite H4 in H. exact H.
+      - apply (al_q s ev t0). rewrite H5 in H. exact H.
+      - rewrite H6 in H. discriminate. }
+    destruct eo as [er|]; [destruct (is_cas er)|];
+      (constructor; unfold vers in *; cbn [s_store s_events s_committed set_retry set_slots set_rlast s1]; auto;
+       [intros ev H; apply (A ev); eapply Al; [..|exact H]; reflexivity|intros ev H; apply (B ev); eapply Al; [..|exact H]; reflexivity]).
   - (* pop *)
     intros _.
     assert (Al : forall ev, alive (set_rlast (set_retry (set_queue s (pop_head (s_queue s))) RIdle) st) ev -> alive s ev).
